@@ -154,7 +154,12 @@ func c08Step(c *vk.Ctx, a *app.App, cfg app.Config, b *app.Backend, raw db.Db, f
 		c.Violate("cannot-load", fmt.Sprintf("%s: after history %v the saved session cannot be loaded: %s", appName, printableHist(hist), o.StoredErr), key, cs())
 		return o, nil, true
 	}
-	if o.ExecErr == "" && (!o.StoredState.Equal(o.State) || !o.StoredCache.Equal(o.Cache)) {
+	snapAfter, _ := raw.Get(ctx, []byte(cfg.SessionId))
+	if o.ExecErr == "" && (!o.StoredState.Equal(o.State) || !o.StoredCache.Equal(o.Cache)) && from.snap != nil && string(snapAfter) == string(from.snap) {
+		// the engine did not save at all in this request (e.g. the _first function stopped it before it was
+		// initialised): the stored session is the complete previous one, which is consistent
+		c.Count("requests_that_did_not_save(dont-care)", 1)
+	} else if o.ExecErr == "" && (!o.StoredState.Equal(o.State) || !o.StoredCache.Equal(o.Cache)) {
 		c.Violate("saved!=live", fmt.Sprintf("%s: after history %v the stored snapshot differs from the live session", appName, printableHist(hist)), key, cs())
 		return o, nil, true
 	}
@@ -297,6 +302,7 @@ func c08Profile(r *vk.RNG) app.Profile {
 	p.Lang = r.Chance(1, 4)
 	p.FixedSizes = r.Chance(1, 2)
 	p.CatchVariants = true
+	p.First = r.Chance(1, 3)
 	return p
 }
 
@@ -342,7 +348,15 @@ func runC08(c *vk.Ctx) {
 		r := c.RNG(key)
 		a := app.Generate(r, c08Profile(r))
 		cfg := genConfig(r, a, "s")
+		cfg.First = a.Funcs["_first"] != nil
+		cfg.ResetOnEmptyInput = r.Chance(1, 4)
 		c.Begin(key)
+		if cfg.First {
+			c.Count("explorations_with_first_function", 1)
+		}
+		if cfg.ResetOnEmptyInput {
+			c.Count("explorations_with_reset_on_empty_input", 1)
+		}
 		if i < 1 {
 			c.Sample(map[string]interface{}{"key": key, "app": a.Describe(), "config": cfg, "alphabet": printableHist(c08Alphabet(a))})
 		}
